@@ -19,6 +19,11 @@ MUTANTS = [
     ("c03-nthpower-n-slip", "C03", E + "nth_power.py", "mf.nth_power(inner_value, n - 1),", "mf.nth_power(inner_value, n),", "NthPower", True),
     ("c04-overwrite", "C04", P + "accumulators.py", "self._numeric_partials[variable_name] = existing + contribution", "self._numeric_partials[variable_name] = contribution", "Variable", True),
     ("c04-minus-sign", "C04", E + "minus.py", "self._right._compute_numeric_partials(accumulator, mf.negation(multiplier), point)", "self._right._compute_numeric_partials(accumulator, multiplier, point)", "Minus", True),
+    ("c05-reciprocal-loses-negation", "C05", E + "reciprocal.py", "return ex.Negation(ex.Divide(multiplier, ex.NthPower(self._inner, n = 2)))", "return ex.Divide(multiplier, ex.NthPower(self._inner, n = 2))", "Reciprocal", True),
+    ("c05-root-exponent-slip", "C05", E + "nth_root.py", "ex.Multiply(ex.Constant(n), ex.NthPower(self, n - 1))", "ex.Multiply(ex.Constant(n), ex.NthPower(self, n))", "NthRoot", True),
+    ("c05-reverse-minus-sign", "C05", E + "minus.py", "self._right._compute_synthetic_partials(accumulator, ex.Negation(multiplier))", "self._right._compute_synthetic_partials(accumulator, multiplier)", "Minus", True),
+    ("c05-reverse-overwrite", "C05", P + "accumulators.py", "next = existing + contribution if existing is not None else contribution", "next = contribution", "Variable", True),
+    ("c05-power-uses-wrong-base", "C05", E + "power.py", "return ex.Multiply(ex.Logarithm(self._left, base = math.e), self, multiplier)", "return ex.Multiply(ex.Logarithm(self._right, base = math.e), self, multiplier)", "Power", True),
     ("c07-d3-reintroduced", "C07", E + "power.py", "            # The exponent must still be defined at the point.\n            self._right._evaluate(point)\n            return 0", "            return 0", "Power", True),
     ("c08-odd-root-of-negation-loses-parity", "C08", E + "nth_root.py", "isinstance(self._inner, ex.Negation) and\n            util.is_odd(self.n)", "isinstance(self._inner, ex.Negation)", "NthRoot._reduce_odd", True),
     ("c08-exp-of-log-loses-base-test", "C08", E + "exponential.py", "isinstance(self._inner, ex.Logarithm) and\n            self.base == self._inner.base", "isinstance(self._inner, ex.Logarithm)", "Exponential._reduce_exponential_of_logarithm", True),
